@@ -123,7 +123,7 @@ class Case:
     def __init__(s, part, spec, pfx):
         s.part = part; s.spec = spec; s.pfx = pfx; s.positive = False; s.refused = None; s.sub = 0
     def V(s, entry, cls, outcome, what, **wit):
-        w = {'spec': {k: v for k, v in s.spec.items()}}; w.update({k: (v.hex() if isinstance(v, (bytes, bytearray)) else v) for k, v in wit.items()})
+        w = {'spec': {k: v for k, v in s.spec.items()}, 'cfg': s.pfx.rstrip(':') or 'asan'}; w.update({k: (v.hex() if isinstance(v, (bytes, bytearray)) else v) for k, v in wit.items()})
         # a symptom seen under another configuration whose un-prefixed key is a listed finding is that same finding (SoftHSM.cpp-level defects do not depend on the back-end)
         pfx = '' if KNOWN().match('C10', 'C10|%s|%s|%s' % (entry, cls, outcome)) else s.pfx
         s.part.violation('%s|%s%s|%s' % (entry, pfx, cls, outcome), what, w)
@@ -481,6 +481,11 @@ def run(ctx):
                 'chunking (empty parts included) == single part; distinct = (config, mechanism, key size, length class, parameter values); non-trivial = the positive control held (the token '
                 'performed the operation and agreed with the reference at least once); cases refused at Init are counted but never non-trivial')
     n = R.selftest(); ctx.extra['refcrypt_selftest_checks'] = n
+    if getattr(ctx, 'replay', None):                  # ./check C10 --replay replays/C10/<hash>.json : re-run exactly that case (exit 1 if it still violates; the coverage floor does not apply to a single case)
+        import json, atexit; w = json.load(open(ctx.replay))['witness']; cfg = w.get('cfg', 'asan'); ctx.need(cfg)
+        evp = os.path.join(os.path.dirname(os.path.abspath(__file__)), '..', 'evidence', 'C10.json'); old = open(evp, 'rb').read() if os.path.exists(evp) else None
+        if old is not None: atexit.register(lambda: open(evp, 'wb').write(old))      # a replay must not replace the evidence of the last real run
+        ctx.merge(worker(dict(ix=0, cfg=cfg, specs=[w['spec']], paths=ctx.paths, hdr=ctx.paths[cfg]['hdr'], scratch=ctx.scratch))); return
     cfgs = ('asan',) if ctx.quick else ('asan', 'botan'); ctx.need(*cfgs)
     jobs = []; adv = {}
     for cfg in cfgs:
